@@ -17,13 +17,21 @@ import (
 // C13 — origin-pattern grammar: documented forms accepted, documented non-forms rejected.
 
 type c13Case struct {
-	Pattern string `json:"pattern"`
-	Valid   bool   `json:"valid"` // by construction
-	How     string `json:"how"`   // how the string was constructed
+	Pattern string   `json:"pattern"`
+	Valid   bool     `json:"valid"`             // by construction
+	How     string   `json:"how"`               // how the string was constructed
+	Company []string `json:"company,omitempty"` // valid patterns listed with it (before it, or after it when After is set)
+	After   bool     `json:"company_after,omitempty"`
 }
 
 func c13Judge(k c13Case) *vlib.Failure {
-	cfg := cors.Config{Origins: []string{k.Pattern}, ExtraConfig: cors.ExtraConfig{DangerouslyTolerateSubdomainsOfPublicSuffixes: true}}
+	list := []string{k.Pattern}
+	if k.After {
+		list = append(list, k.Company...)
+	} else {
+		list = append(append([]string(nil), k.Company...), k.Pattern)
+	}
+	cfg := cors.Config{Origins: list, ExtraConfig: cors.ExtraConfig{DangerouslyTolerateSubdomainsOfPublicSuffixes: true}}
 	m, err := cors.NewMiddleware(cfg)
 	_, perr := origins.ParsePattern(k.Pattern)
 	if (err == nil) != (perr == nil) {
@@ -129,6 +137,28 @@ func c13Bases() []c13Base {
 			}
 		}
 	}
+	return out
+}
+
+// c13Company returns lists of valid patterns that cover what a defective variant of b could be taken to denote:
+// the base itself, the same host on any port, any subdomain of the host's parent, and the lone wildcard.
+func c13Company(b c13Base) [][]string {
+	var out [][]string
+	try := func(l ...string) {
+		if _, err := cors.NewMiddleware(cors.Config{Origins: l, ExtraConfig: cors.ExtraConfig{DangerouslyTolerateSubdomainsOfPublicSuffixes: true}}); err == nil {
+			out = append(out, l)
+		}
+	}
+	try(b.String())
+	try(b.scheme + "://" + b.host + ":*")
+	if b.kind == "domain" {
+		if i := strings.IndexByte(b.host, '.'); i > 0 && i+1 < len(b.host) {
+			try(b.scheme + "://*." + b.host[i+1:] + ":*")
+			try(b.scheme+"://*."+b.host[i+1:]+":*", b.scheme+"://"+b.host+":*")
+		}
+		try(b.scheme + "://*." + b.host + ":*")
+	}
+	try("*")
 	return out
 }
 
@@ -338,26 +368,34 @@ func checkC13(c *vlib.Ctx) (string, string) {
 	}
 	bases := c13Bases()
 	defects := c13Defects()
-	var nValid, nInvalid int64
+	var nValid, nInvalid, nCompany int64
 	for _, b := range bases {
 		s := b.String()
 		nValid++
 		c.Nontrivial.Add(1)
-		ck.Try(c13Case{s, true, "documented grammar"})
+		ck.Try(c13Case{Pattern: s, Valid: true, How: "documented grammar"})
+		comps := c13Company(b)
 		for _, d := range defects {
 			if m, ok := d.f(b); ok {
 				nInvalid++
 				c.Nontrivial.Add(1)
-				ck.Try(c13Case{m, false, d.name + " applied to " + s})
+				ck.Try(c13Case{Pattern: m, How: d.name + " applied to " + s})
+				// the same string listed after / before valid patterns that cover what it would denote
+				for _, co := range comps {
+					nCompany += 2
+					ck.Try(c13Case{Pattern: m, How: d.name + " applied to " + s, Company: co})
+					ck.Try(c13Case{Pattern: m, How: d.name + " applied to " + s, Company: co, After: true})
+				}
 			}
 		}
 		if c.Stopped() {
 			break
 		}
 	}
-	c.Sample(c13Case{bases[len(bases)/2].String(), true, "documented grammar"})
-	c.States.Add(nValid + nInvalid)
-	c.Transitions.Add(2*nValid + nInvalid)
+	c.Sample(c13Case{Pattern: bases[len(bases)/2].String(), Valid: true, How: "documented grammar"})
+	c.States.Add(nValid + nInvalid + nCompany)
+	c.Transitions.Add(2*nValid + nInvalid + nCompany)
+	c.Set("defective_strings_in_company_of_valid_patterns", nCompany)
 	// small scope
 	sigma := []string{"a", "b", ".", ":", "*", "1", "0", "-", "[", "]", "/", "A", "@", "8"}
 	n := vlib.Pick(c, 6, 7)
@@ -371,19 +409,21 @@ func checkC13(c *vlib.Ctx) (string, string) {
 		switch v {
 		case ref.PatValid:
 			c.Nontrivial.Add(1)
-			ck.Try(c13Case{s, true, "small-scope enumeration, reference recogniser says valid"})
+			ck.Try(c13Case{Pattern: s, Valid: true, How: "small-scope enumeration, reference recogniser says valid"})
 		case ref.PatInvalid:
-			ck.Try(c13Case{s, false, "small-scope enumeration, reference recogniser says invalid"})
+			ck.Try(c13Case{Pattern: s, How: "small-scope enumeration, reference recogniser says invalid"})
 		default:
 			// grey zone: only the panic oracle and NewMiddleware/ParsePattern agreement apply
 			c.Evaluations.Add(1)
 			_, e1 := cors.NewMiddleware(cors.Config{Origins: []string{s}, ExtraConfig: cors.ExtraConfig{DangerouslyTolerateSubdomainsOfPublicSuffixes: true}})
 			_, e2 := origins.ParsePattern(s)
 			if (e1 == nil) != (e2 == nil) {
-				ck.Report(c13Case{s, false, "not judged"}, vlib.Failf("NewMiddleware and ParsePattern disagree on %q", s))
+				ck.Report(c13Case{Pattern: s, How: "not judged"}, vlib.Failf("NewMiddleware and ParsePattern disagree on %q", s))
 			}
 		}
-		c.SampleAt(i+1, func() any { return c13Case{s, ref.PatternVerdict(s) == ref.PatValid, "small scope"} })
+		c.SampleAt(i+1, func() any {
+			return c13Case{Pattern: s, Valid: ref.PatternVerdict(s) == ref.PatValid, How: "small scope"}
+		})
 	})
 	c.Set("small_scope_verdicts", map[string]int64{"not_judged": judged[0].Load(), "invalid": judged[1].Load(), "valid": judged[2].Load()})
 	c.States.Add(int64(len(prefixes)) * w.Count())
